@@ -184,6 +184,11 @@ fn build_app(cors: &str) -> (App<HState>, Arc<HState>) {
             note(&req, &st);
             Response::new(StatusCode::OK, c01::huge_body())
         })
+        .with_route("/slow", |req: Request, st: Arc<HState>| async move {
+            note(&req, &st);
+            tokio::time::sleep(Duration::from_millis(30)).await;
+            Response::new(StatusCode::OK, "slow-body")
+        })
         .with_route("/panic", |req: Request, st: Arc<HState>| async move {
             note(&req, &st);
             if req.uri.len() < 100 {
